@@ -396,6 +396,10 @@ func c09GenHistory(r *Rng, n int) []c09Step {
 		if r.Chance(10) {
 			st.Rec.Msg = strings.Repeat("long message ", 150) // makes the buffer grow
 		}
+		if r.Chance(20) { // an error value that carries its own stack: the formatter resolves that frame on the pooled context
+			st.Rec.Attrs = append(st.Rec.Attrs, GAttr{Key: "stackerr", Val: GVal{Kind: "stackerr", S: "boom with a stack"}})
+			st.Rec.Cfg.Caller = true
+		}
 		h = append(h, st)
 	}
 	return h
